@@ -5,12 +5,14 @@ import Amgcl.Proofs.KernelsRmerge
 import Amgcl.Proofs.KernelsMisc
 import Amgcl.Proofs.KernelsGershgorin
 import Amgcl.Proofs.KernelsProductEq
+import Amgcl.Proofs.KernelsCopy
 /-!
 # C08 — sparse matrix kernels equal their dense definitions (part 2)
 
 Row sort (`detail::sort_row`, `backend::sort_rows`), weighted sum (`backend::sum`), row-merge SpGEMM
 (`spgemm_rmerge`) and its agreement with the marker-based SpGEMM (hence independence of `backend::product` from
-the thread count), diagonal extraction / inversion (`backend::diagonal`), row-pointer facts, and the Gershgorin
+the thread count), diagonal extraction / inversion (`backend::diagonal`), row-pointer facts, the CRS copy / convert
+constructors, and the Gershgorin
 spectral-radius bound (`spectral_radius<scale>(A, 0)`).  Part 1 (`Properties/C08.lean`): transpose,
 `spgemm_saad`, scale.
 
@@ -241,6 +243,16 @@ theorem ptr_monotone (A : CRS K) :
     A.ptr.getLast? = some A.nnz ∧
     ∀ i, i < A.nrows → A.ptr.getD (i + 1) 0 = A.ptr.getD i 0 + (A.row i).length :=
   ⟨(K2.ptr_monotone A).1, (K2.ptr_monotone A).2.1, (K2.ptr_monotone A).2.2, ptr_last A, ptr_succ A⟩
+
+/-- **CRS copy / convert constructors** (from index/value ranges, from another CRS, from any matrix type with a row
+iterator): the row-by-row copy reproduces the stored matrix exactly — same shape, same rows in the same stored
+order, hence the same `ptr` array, denotation and well-formedness. -/
+theorem crs_copy_spec (A : CRS K) :
+    crsCopy A = A ∧ (crsCopy A).ptr = A.ptr ∧ ((crsCopy A).WF ↔ A.WF) := by
+  rw [crsCopy_eq]; exact ⟨rfl, rfl, Iff.rfl⟩
+
+example : (crsCopy (⟨3, #[[(2, 'a'), (0, 'b'), (2, 'c')], []]⟩ : CRS Char)).rows
+    = #[[(2, 'a'), (0, 'b'), (2, 'c')], []] := by decide +kernel
 
 /-- `scan_row_sizes`: prefix sums of the widths — monotone, first entry `0`, last entry the total -/
 theorem scanWidths_spec (ws : List Nat) :
